@@ -278,6 +278,11 @@ func modelEvents(h []fsops.Op) []string {
 					_ = w.Add(filepath.Join(root, op.Dir))
 				}
 				sched.Quiesce("barrier")
+				if op.Kind == "mvdir-away" {
+					// as the cache does once it has seen the Rename event of a watched directory: drop the watch of the moved
+					// directory (fsnotify 1.5.1 loses the path of a watch that is added again under a name it still knows)
+					_ = w.Remove(filepath.Join(root, op.Dir))
+				}
 			}
 			_ = w.Close()
 		}
@@ -361,10 +366,7 @@ func main() {
 			preempt, _ := strconv.Atoi(os.Args[i+3])
 			dl, _ := strconv.ParseInt(os.Args[i+4], 10, 64)
 			hs := histories(depth)
-			raceLen := 1
-			if depth >= 3 {
-				raceLen = 2
-			}
+			raceLen := 2
 			enc := json.NewEncoder(os.Stdout)
 			for k, h := range hs {
 				if k%wn != wi {
@@ -429,6 +431,32 @@ func main() {
 	if s := os.Getenv("VERIF_C11_PREEMPT"); s != "" {
 		preempt, _ = strconv.Atoi(s)
 	}
+	// recorded schedules of earlier findings are replayed first (cheap regression guard for
+	// findings that need more depth or preemptions than the quick tier explores)
+	regs, _ := filepath.Glob(filepath.Join(hx.VerifRoot, "regress", "C11-*.json"))
+	replayed := 0
+	for _, f := range regs {
+		b, err := os.ReadFile(f)
+		if err != nil {
+			continue
+		}
+		var doc struct {
+			Case Case `json:"case"`
+		}
+		if json.Unmarshal(b, &doc) != nil || len(doc.Case.History) == 0 {
+			continue
+		}
+		e, _, v := explore.RunOnce(scenario(doc.Case.History, doc.Case.Eager, 99, doc.Case.Racing), doc.Case.Choices, false)
+		if e.Diverged != "" {
+			continue // the code changed shape; the recorded schedule no longer applies
+		}
+		replayed++
+		r.AddEvals(1, 1)
+		if v != nil {
+			r.Fail(&hx.Failure{Sig: v.Sig, Msg: v.Msg + " [recorded schedule " + filepath.Base(f) + "]", Case: doc.Case, Rank: 1})
+		}
+	}
+	r.Extra["recorded_schedules_replayed"] = replayed
 	hs := histories(depth)
 	nw := 16
 	results := make(chan workerOut, 4096)
